@@ -17,6 +17,10 @@ pub enum FnBody {
     PtrAssign(String),
     /// a diagnostic-producing statement (constant that does not fit)
     Warn,
+    /// several literals in the initialiser of a local pointer: `char *lp = v0 ? "a" : "b";`
+    LocalInit(Vec<String>),
+    /// several literals in one assignment: `gp = v0 ? "a" : "b";`
+    TernaryAssign(Vec<String>),
 }
 
 #[derive(Debug, Clone, Serialize, Deserialize, PartialEq)]
@@ -117,6 +121,14 @@ pub fn gen_case(g: &mut G) -> Case {
                 }
                 7 => FnBody::PtrAssign(WORDS[g.below(10)].to_string()),
                 8 if g.chance(1, 3) => FnBody::Warn,
+                8 | 9 if g.chance(1, 2) => {
+                    let lits: Vec<String> = (0..2 + g.below(2)).map(|_| WORDS[g.below(10)].to_string()).collect();
+                    if g.chance(1, 2) {
+                        FnBody::LocalInit(lits)
+                    } else {
+                        FnBody::TernaryAssign(lits)
+                    }
+                }
                 _ => FnBody::Assign(g.below(nvars), g.u32() as u8),
             });
         }
@@ -184,6 +196,18 @@ pub fn source(c: &Case) -> String {
                 FnBody::Call(k) => s.push_str(&format!("  {}();\n", c.funs[*k].name)),
                 FnBody::PtrAssign(w) => s.push_str(&format!("  gp = \"{}\";\n", w)),
                 FnBody::Warn => s.push_str("  X = 300;\n"),
+                FnBody::LocalInit(l) | FnBody::TernaryAssign(l) => {
+                    let e = if l.len() >= 3 {
+                        format!("v0 ? \"{}\" : (v1 ? \"{}\" : \"{}\")", l[0], l[1], l[2])
+                    } else {
+                        format!("v0 ? \"{}\" : \"{}\"", l[0], l[1])
+                    };
+                    if matches!(b, FnBody::LocalInit(_)) {
+                        s.push_str(&format!("  {{ char *lp = {}; gp = lp; }}\n", e));
+                    } else {
+                        s.push_str(&format!("  gp = {};\n", e));
+                    }
+                }
             }
         }
         s.push_str("}\n");
@@ -332,7 +356,10 @@ pub fn check(case: &Case, st: &mut Stats, in_process: usize, processes: usize) -
             return Err(format!("C05-fresh-process: a fresh process disagrees with this process: {}", first_diff(&first, o)));
         }
     }
-    let lit_expr = case.funs.iter().any(|f| f.body.iter().any(|b| matches!(b, FnBody::LiteralCall { lits, .. } if lits.len() >= 2)));
+    let lit_expr = case.funs.iter().any(|f| f.body.iter().any(|b| matches!(b, FnBody::LiteralCall { lits, .. } if lits.len() >= 2) || matches!(b, FnBody::LocalInit(_) | FnBody::TernaryAssign(_))));
+    if case.funs.iter().any(|f| f.body.iter().any(|b| matches!(b, FnBody::LocalInit(_)))) {
+        st.count("label:several-literals-in-a-local-initialiser");
+    }
     let later = case.funs.iter().any(|f| f.proto);
     if lit_expr || later || !case.tables.is_empty() {
         st.nontrivial(pbt::hash_str(&src));
